@@ -77,6 +77,8 @@ def build(tier, seed):
     for w in words(SIGMA, 2, LS, nonzero=True):
         for sc in SCALES:
             cases.append({'k': 'scaled', 'w': list(w), 'scale': sc})
+    for w in words(SIGMA, 2, LS, nonzero=True):
+        cases.append({'k': 'extreme', 'w': list(w)})
     for n in longs:
         for pat in ('first', 'last', 'mixed'):
             cases.append({'k': 'long', 'L': n, 'pat': pat})
@@ -124,7 +126,7 @@ def build(tier, seed):
                 % (L, list(DTS), LX, longs, LP, inv_n, LH, LS, list(SCALES), list(SCALED_DTS), near_n, list(NEAR_EPS),
                    list(NEAR_SCALES), e_max, LO2, list(ORD_MUTATORS), LO3, list(ORD_READS)),
         'bounds': {'alphabet': SIGMA, 'max_len': L, 'dt': DTS, 'p2_plus': [0, 1, 2, 3], 'n': ['L', 'L+1', '2L', '(L+2)|1'],
-                   'pair_max_len': LP, 'history_full_cross_max_len': LX, 'object_family_max_len': LH, 'scaled_max_len': LS,
+                   'pair_max_len': LP, 'history_full_cross_max_len': LX, 'object_family_max_len': LH, 'scaled_max_len': LS, 'extreme_scales (spectrum and dominant period, words up to scaled_max_len)': [1e-170, 1e-160, 1e150, 1e160],
                    'scales': SCALES, 'scaled_dt': SCALED_DTS, 'near_equal_N': near_n, 'near_equal_eps': NEAR_EPS,
                    'near_equal_scales': NEAR_SCALES, 'containers': ['float64', 'int64', 'int16 x15000', 'uint8 x125 (words without -1)',
                                                                     'list', 'tuple', 'complex128 (zero imaginary part)'],
@@ -146,7 +148,7 @@ def build(tier, seed):
                              'history-longer-record-before', 'history-across-power-of-two', 'history-same-padded-length',
                              'history-add_constant', 'history-add_series', 'container-i64', 'container-i16', 'container-u8',
                              'container-list', 'container-tuple', 'a-b-a', 'two-live-objects', 'returned-array-overwritten',
-                             'default-after-explicit', 'scaled-1e-09', 'scaled-1e+06', 'near-equal-amplitudes',
+                             'default-after-explicit', 'scaled-1e-09', 'scaled-1e+06', 'extreme-scale-1e-170', 'extreme-scale-1e+160', 'near-equal-amplitudes',
                              'container-c128', 'roundtrip-object', 'roundtrip-object-padded-further', 'boundary-2^e-1',
                              'boundary-2^e', 'boundary-2^e+1', 'boundary-e>=14'] + ['orders:' + n for n in ORD_MUTATORS],
         'assumptions': ['sample values outside {-1,0,2} (their linear combinations 2x-3y, their multiples by 1e-9, 1e+6, 15000 (int16), '
@@ -1141,6 +1143,39 @@ def run_pow2(r, e, off):
     return r
 
 
+EXTREME_SCALES = (1e-170, 1e-160, 1e150, 1e160)
+
+
+def run_extreme(r, w):
+    """The statement is linear and scale-free: the same word at amplitudes whose SQUARES under- or overflow (the values themselves
+    and dt x DFT stay finite and normal).  Spectrum = scale x reference, and the dominant period is that of the unscaled word."""
+    L = len(w)
+    ref = RefCache(w)
+    r.nontrivial += 1
+    n_default = fr.n_rule(L, 0)
+    dt = 0.01
+    rspec, rfreqs, _ = ref.get(n_default, dt)
+    for sc in EXTREME_SCALES:
+        r.cls('extreme-scale-%.0e' % sc)
+        wf = np.array(w, dtype=float) * sc
+        for cname in CLASSES:
+            sub = {'w': w, 'scale': sc, 'dt': dt, 'cls': cname, 'mode': 'default'}
+            r.states += 1
+            ok, out = r.call('values', dict(sub, entry='object-lazy'), lambda: (lambda s_: (s_.fa_spectrum, s_.fa_freqs))(make(cname, wf, dt)))
+            if ok:
+                ok, a, f = unpack2(r, 'values', dict(sub, entry='object-lazy'), out)
+                if ok:
+                    try:
+                        a1 = np.asarray(a) / sc
+                    except Exception:
+                        a1 = a
+                    cmp_spec(r, dict(sub, entry='object-lazy'), a1, f, rspec, rfreqs)
+            ok, p = r.call('max_fa_period', sub, lambda: im.max_fa_period(make(cname, wf, dt)))
+            if ok:
+                period_check(r, sub, p, rspec, n_default, dt)
+    return r
+
+
 # ------------------------------------------------------------------------------ linearity
 def spectra(entry, cname, vals, dt, L):
     s = make(cname, vals, dt)
@@ -1263,6 +1298,8 @@ def run_case(case):
         else:
             w, tag = long_record(case['L'], case['pat']), 'long:%s:L=%d:scale=%g' % (case['pat'], case['L'], sc)
         return check_record(r, [sc * v for v in w], tag, light=True, dts=SCALED_DTS)
+    if k == 'extreme':
+        return run_extreme(r, case['w'])
     if k == 'near':
         return run_near(r, case['N'])
     if k == 'pow2':
@@ -1290,7 +1327,9 @@ def snippet(case, v):
                 "      len(frequency.calc_fa_spectrum(s, p2_plus=1)[0]), 'expected', N)\n"
                 "print('object bins', len(s.fa_spectrum), 'df', s.fa_freqs[1], 'expected', 1 / (N * s.dt))\n"
                 % (sub, L, case['e'], case['off'], pow2_record(L)))
-    if k in ('word', 'obj', 'scaled') and 'w' in case:
+    if k == 'extreme':
+        rec = [float(sub.get('scale', 1)) * x for x in case['w']]
+    elif k in ('word', 'obj', 'scaled') and 'w' in case:
         rec = [float(case.get('scale', 1)) * x for x in case['w']]
     elif k in ('long', 'obj', 'scaled'):
         rec = [float(case.get('scale', 1)) * x for x in long_record(case['L'], case['pat'])]
